@@ -6,6 +6,9 @@ rustc-expanded crates.  Function bodies are copied verbatim except for the logge
   R3  attributes dropped (#[inline], #[allow], doc comments); derive-generated impls are replaced by
       `#[derive]` of the subset Verus understands (Clone, Copy, PartialEq, Eq) on the copied type
   R5  `super::` / `crate::` path prefixes dropped (everything is spliced into one flat module)
+  R10 reference patterns in match arms, `Some(&x) => {`  ->  `Some(x_r_) => { let x = *x_r_;` (Verus has no ref patterns; same value)
+  R11 a closure is given parameter types, a named result and requires/ensures from the template, and its body is wrapped in
+      braces: `|id| e`  ->  `|id: &usize| -> (r: usize) ensures .. { e }` (ghost annotation; the body text is unchanged)
   (R4, the timing-statistics statements, is applied by the index unit only and logged there.)
 
 Template directives (lines starting with //@):
@@ -109,6 +112,84 @@ def drop_path_prefixes(text, log, where):
     return re.sub(r'\b(super|crate)::', repl, text)
 
 
+def rewrite_ref_patterns(body, log, where):
+    """R10: `Some(&x) => {` -> `Some(x_r_) => { let x = *x_r_;`"""
+    def repl(m):
+        log.rw('R10', where, re.sub(r'\s+', ' ', m.group(0)))
+        return 'Some(%s_r_) => { let %s = *%s_r_;' % (m.group(1), m.group(1), m.group(1))
+    return re.sub(r'Some\(\s*&\s*(\w+)\s*\)\s*=>\s*\{', repl, body)
+
+
+def find_closures(body):
+    """[(start of `|`, end of params `|` (exclusive), body start, body end (exclusive), is_block)] in textual order"""
+    valid = dict(scan(body, 0))
+    res = []
+    i = 0
+    n = len(body)
+    while i < n:
+        if i not in valid or body[i] != '|':
+            i += 1
+            continue
+        # a closure starts after `(`, `,`, `=`, `move` or at the start of an expression statement
+        k = i - 1
+        while k >= 0 and body[k].isspace():
+            k -= 1
+        prev = body[k] if k >= 0 else ';'
+        is_move = body[max(0, k - 3):k + 1] == 'move'
+        if not (prev in '(,=;{' or is_move):
+            i += 1
+            continue
+        # parameter list
+        if body.startswith('||', i):
+            pend = i + 2
+        else:
+            j = i + 1
+            while j < n and not (j in valid and body[j] == '|'):
+                j += 1
+            if j >= n:
+                break
+            pend = j + 1
+        b = pend
+        while b < n and body[b].isspace():
+            b += 1
+        if b < n and body[b] == '{':
+            e = match_close(body, b) + 1
+            res.append((i, pend, b, e, True))
+        else:
+            depth = 0
+            e = n
+            for p, c in scan(body, b):
+                if c in '([{':
+                    depth += 1
+                elif c in ')]}':
+                    if depth == 0:
+                        e = p
+                        break
+                    depth -= 1
+                elif c in ',;' and depth == 0:
+                    e = p
+                    break
+            res.append((i, pend, b, e, False))
+        i = pend
+    return res
+
+
+def annotate_closures(body, closures, log, where):
+    """R11; closures: {ordinal: {'params': str, 'ret': str, 'clauses': str}}"""
+    found = find_closures(body)
+    missing = [k for k in closures if k < 1 or k > len(found)]
+    if missing:
+        raise LostAnchor('%s: closure ordinals %s not present (function has %d closures)' % (where, sorted(missing), len(found)))
+    for k in sorted(closures, reverse=True):
+        st, pend, b, e, is_block = found[k - 1]
+        c = closures[k]
+        inner = body[b:e] if is_block else '{ ' + body[b:e].strip() + ' }'
+        new = '|%s| -> (%s)\n%s\n%s' % (c['params'], c['ret'], c['clauses'].rstrip(), inner)
+        log.rw('R11', where, 'closure %d: %s' % (k, re.sub(r'\s+', ' ', body[st:pend])))
+        body = body[:st] + new + body[e:]
+    return body
+
+
 def render_fn(fn_item, contract, log, where, in_trait_decl=False):
     """contract: dict(binder=str|None, clauses=str, loops={n: text}) or None."""
     sig, ret, wherec, body = fn_parts(fn_item)
@@ -139,7 +220,10 @@ def render_fn(fn_item, contract, log, where, in_trait_decl=False):
     b = drop_timing_statistics(b, log, where)
     b = rewrite_or_assign(b, log, where)
     b = rewrite_for_mut_ref(b, log, where)
+    b = rewrite_ref_patterns(b, log, where)
     b = drop_path_prefixes(b, log, where)
+    if contract and contract.get('closures'):
+        b = annotate_closures(b, contract['closures'], log, where)
     if pre:
         b = re.sub(r'\bself\b', 'self_', b)
         b = ' ' + pre + b
@@ -254,6 +338,11 @@ def parse_fn_contracts(lines):
                 n = int(parts[2]) if len(parts) > 2 else 0
             cur.setdefault('ghost', []).append([anchor, n, ''])
             curloop = ('ghost', len(cur['ghost']) - 1)
+        elif s.startswith('//@closure '):
+            parts = [p.strip() for p in s[len('//@closure '):].split('|')]
+            k = int(parts[0])
+            cur.setdefault('closures', {})[k] = {'params': parts[1], 'ret': parts[2], 'clauses': ''}
+            curloop = ('closure', k)
         elif s.startswith('//@drop '):
             drops += s.split()[1:]
         elif s.startswith('//@external '):
@@ -262,7 +351,9 @@ def parse_fn_contracts(lines):
             cur = None
             curloop = None
         elif cur is not None:
-            if isinstance(curloop, tuple):
+            if isinstance(curloop, tuple) and curloop[0] == 'closure':
+                cur['closures'][curloop[1]]['clauses'] += ln + '\n'
+            elif isinstance(curloop, tuple):
                 cur['ghost'][curloop[1]][2] += ln + '\n'
             elif curloop is not None:
                 cur['loops'][curloop] += ln + '\n'
@@ -310,7 +401,8 @@ class Splicer:
             if kind == 'type':
                 tparts = [p.strip() for p in rest.split('|')]
                 loc, name = tparts[0], tparts[1]
-                pubfields = len(tparts) > 2 and tparts[2] == 'pubfields'
+                pubfields = 'pubfields' in tparts[2:]
+                noderive = 'noderive' in tparts[2:]
                 crate, mod = loc.split()
                 mod = '' if mod == '-' else mod
                 it = [x for x in self.src(crate).module(mod) if x.kind in ('struct', 'enum') and x.name == name]
@@ -326,9 +418,12 @@ class Splicer:
                             ders = [d for d in VERUS_DERIVES if d in [x.strip() for x in md.group(1).split(',')]]
                 self.log.rw('R3', '%s::%s::%s' % (crate, mod, name), 'derive impls -> #[derive(%s)]' % ', '.join(ders))
                 self.log.types.append('%s::%s::%s' % (crate, mod, name))
-                if ders:
+                if ders and not noderive:
                     out.append('#[derive(%s)]' % ', '.join(ders))
                 ttext = it.text if it.text.rstrip().endswith((';', '}')) else it.text + ';'
+                if pubfields and '{' in ttext and 'pub(crate)' in ttext:
+                    ttext = re.sub(r'pub\(crate\)\s+', 'pub ', ttext)
+                    self.log.rw('R8', '%s::%s::%s' % (crate, mod, name), 'pub(crate) fields made pub in the verified copy')
                 if pubfields:
                     # R8: private tuple-struct fields are made `pub` in the copy (visibility has no run-time meaning; Verus treats a
                     # type with private fields as opaque in public specifications)
